@@ -127,6 +127,6 @@ CLAIM = dict(
     text="CBMC proofs for all 2^32/2^64 operand bit patterns: contracts on the float macros of the real runtime header (min/max incl. signed zeros "
          "and NaN, truncation trap boundaries from an integer-only reference, saturation, reinterpretation) and on the generated C of every float "
          "opcode in three stack contexts. libm-backed opcodes: mapping proved, libm assumed.",
-    note="Trusted: CBMC float theory, spec transcription, libm (C99 Annex F), compilers at FLT_EVAL_METHOD 0. Program-structure induction on paper.",
+    note="Trusted: CBMC float theory, spec transcription, libm (C99 Annex F), compilers at FLT_EVAL_METHOD 0. Program-structure induction on paper. Out-of-range float->integer casts (undefined, but given a value by CBMC's bit-vector semantics) are separate obligations via CBMC's conversion check on the 16 TRUNC macros, with the exactly representable signed minimum excluded (false alarm of that check).",
     technique="CBMC code contracts (dfcc) on runtime float macros + per-opcode contracts on w2c2-generated C, all bit patterns",
 )
